@@ -386,7 +386,13 @@ impl<'a> Printer<'a> {
             }
             Expr::Tuple(xs) => {
                 if xs.len() == 1 {
-                    format!("({},)", self.brk(&self.expr(&xs[0], lvl), lvl))
+                    // the comma makes it a tuple wherever the closing parenthesis stands
+                    let inner = self.brk(&self.expr(&xs[0], lvl), lvl);
+                    match self.lay(hash64(inner.as_bytes()) ^ 0x1717, 4) {
+                        1 => format!("({},\n{})", inner, self.ind(lvl)),
+                        2 => format!("({}, // one element\n{})", inner, self.ind(lvl)),
+                        _ => format!("({},)", inner),
+                    }
                 } else {
                     format!("({})", self.args(xs, lvl, xs.len() as u64 ^ 0x77))
                 }
